@@ -15,6 +15,7 @@ DECIDED += '; R1 also: the width of the latency window is computed with a satura
 DECIDED += '; R2 also: a setter stores its argument (no normalisation against the inherited minimum)'
 DECIDED += '; a release reschedules only held messages (shared C08-R14), in-flight messages are purged only by a partition (shared C03-R3), the receive slot is filled only when empty (shared C09-R6)'
 DECIDED += '; the datagram parked by readable() is handed out before anything still queued (shared C09-R10)'
+DECIDED += '; R7 a topology setter never rebuilds a configuration struct from Default; accept looks at the backlog before it parks (shared C12-R9)'
 ASSUMPTIONS = ["std::cmp::min / Duration arithmetic behave as documented"]
 
 LAT = "turmoil::config::Latency"
